@@ -432,6 +432,52 @@ func runC10(c *Check) {
 		}
 	}
 	c.MinInstances("C10-R7", 2)
+	c.Doc("C10-R9", "EO: every constructor of the sequencer returns a sequencer only after the queue was reloaded from its log successfully (whatever the role flags): a sequencer that accepts and hands out batches with an empty in-memory queue over a non-empty log forgets pending batches and overwrites their entries.")
+	{
+		nCtor := 0
+		for _, fn := range p.Funcs {
+			pk := fnPkg(fn)
+			if pk == nil || pk.Pkg.Path() != singlePkg || fn.Parent() != nil || fn.Signature.Recv() != nil {
+				continue
+			}
+			res := fn.Signature.Results()
+			if res.Len() != 2 || !strings.HasSuffix(res.At(0).Type().String(), "single.Sequencer") {
+				continue
+			}
+			g := BuildECFG(p, fn, ExpandOpts{MaxDepth: 0})
+			// constructors that delegate to another constructor are covered through it
+			direct := g.Select(func(n *Node) bool { cc := CallCommonOf(n); return cc != nil && cc.StaticCallee() == load })
+			if len(direct) == 0 {
+				delegates := false
+				for _, cal := range staticCalleesOf(p, fn) {
+					if r := cal.Signature.Results(); r.Len() == 2 && strings.HasSuffix(r.At(0).Type().String(), "single.Sequencer") {
+						delegates = true
+					}
+				}
+				if delegates {
+					continue
+				}
+			}
+			c.NoteGraph(g)
+			nCtor++
+			loadOK := g.Select(ErrNilEdge(func(t *Term) bool {
+				cv, ok := t.V.(*ssa.Call)
+				return ok && t.Op == "call" && cv.Common().StaticCallee() == load
+			}))
+			inst := fnShort(fn) + " ⟂ queue-reloaded-before-use"
+			if len(loadOK) == 0 {
+				c.Bad("C10-R9", inst, fnName(fn), p.Pos(fn.Pos()), "the constructor does not reload the queue from its log (or ignores the result)", nil)
+				continue
+			}
+			c.Decide("C10-R9", inst, fnName(fn), p.InstrPos(loadOK[0].In), "a sequencer is returned only after the queue was reloaded from its log",
+				"a sequencer can be returned without its queue having been reloaded from the log: batches accepted before the restart are not handed out, and new ones re-use their sequence numbers and overwrite them", g,
+				g.PathAvoiding([]*Node{g.Entry}, g.SuccessExits(), nodeSet(loadOK)))
+		}
+		if nCtor == 0 {
+			c.Unk("C10-R9", "constructors", "", "", "anchor lost: no constructor of the sequencer calls the queue's Load")
+		}
+		c.MinInstances("C10-R9", 1)
+	}
 	c.Doc("C10-R8", "EO: in Next, after the head was removed from the in-memory queue every return hands the batch out (no error return after the pop).")
 	rulePoppedBatchHandedOut(c, p, "C10-R8")
 	c.MinInstances("C10-R8", 1)
